@@ -174,15 +174,21 @@ def payload : Body → Option Bytes
 
 /-! ## `"%x" % n`, `str(n)` -/
 
-def toHex (n : Nat) : Bytes :=
-  if n < 16 then [hexDigit n] else toHex (n / 16) ++ [hexDigit (n % 16)]
-termination_by n
-decreasing_by omega
+/-- digits of `n` in base 16 / 10, most significant first; the first argument is recursion fuel
+(`n` itself is always enough) so that the definitions compute by plain structural recursion -/
+def toHexAux : Nat → Nat → Bytes
+  | 0, n => [hexDigit (n % 16)]
+  | f + 1, n => if n < 16 then [hexDigit n] else toHexAux f (n / 16) ++ [hexDigit (n % 16)]
 
-def toDec (n : Nat) : Bytes :=
-  if n < 10 then [48 + n] else toDec (n / 10) ++ [48 + n % 10]
-termination_by n
-decreasing_by omega
+/-- `"%x" % n` -/
+def toHex (n : Nat) : Bytes := toHexAux n n
+
+def toDecAux : Nat → Nat → Bytes
+  | 0, n => [48 + n % 10]
+  | f + 1, n => if n < 10 then [48 + n] else toDecAux f (n / 10) ++ [48 + n % 10]
+
+/-- `str(n)` -/
+def toDec (n : Nat) : Bytes := toDecAux n n
 
 /-! ## http.client / urllib3 `putrequest`, `putheader`, `request` -/
 
@@ -213,53 +219,78 @@ def stripIpv6Iface (b : Bytes) : Except Exc Bytes :=
     if pre.head? = some 91 then .ok (pre ++ [93]) else .error .assertionError
   else .ok b
 
-/-- `http.client.HTTPConnection.putheader(header, value)` for one value; returns the buffered line.
-`value` is either a `str` (encoded latin-1) or already `bytes`. -/
-def hcPutheader (name : Str) (value : Str ⊕ Bytes) : Except Exc Bytes := do
-  let n ← encodeAscii name
-  if !legalHeaderName n then throw .valueError
-  let v ← match value with
-    | .inl s => encodeLatin1 s
-    | .inr b => pure b
-  if illegalHeaderValue v then throw .valueError
-  pure (n ++ colonSp ++ v)
+/-- a buffered header line in structured form: `name ++ b": " ++ value` -/
+abbrev Hdr := Bytes × Bytes
 
-/-- urllib3's `putheader`: `none` = header skipped -/
-def putheader (name value : Str) : Except Exc (Option Bytes) :=
-  if value != Gen.skipHeader then (hcPutheader name (.inl value)).map some
+def hdrLine (h : Hdr) : Bytes := h.1 ++ colonSp ++ h.2
+
+/-- `http.client.HTTPConnection.putheader(header, value)` for one value; returns the buffered line
+(as name / value).  `value` is either a `str` (encoded latin-1) or already `bytes`. -/
+def hcPutheader (name : Str) (value : Str ⊕ Bytes) : Except Exc Hdr :=
+  match encodeAscii name with                            -- header.encode('ascii')
+  | .error e => .error e
+  | .ok n =>
+    if !legalHeaderName n then .error .valueError
+    else
+      match (match value with | .inl s => encodeLatin1 s | .inr b => .ok b) with
+      | .error e => .error e
+      | .ok v => if illegalHeaderValue v then .error .valueError else .ok (n, v)
+
+/-- urllib3's `putheader`: `[]` = header skipped -/
+def putheader (name value : Str) : Except Exc (List Hdr) :=
+  if value != Gen.skipHeader then (hcPutheader name (.inl value)).map fun h => [h]
   else if !Gen.skippableHeaders.contains (lower name) then .error .valueError
-  else .ok none
+  else .ok []
 
 /-- the `Host` header line computed by `http.client.putrequest` -/
-def hostLine (cfg : Cfg) (url : Str) : Except Exc Bytes := do
+def hostValue (cfg : Cfg) (url : Str) : Except Exc (Str ⊕ Bytes) := do
   let netloc ← if isPrefix (lit "http") url then cfg.netloc else pure []
   if netloc != [] then
     let e ← asciiOrIdna cfg netloc
     let v ← stripIpv6Iface e
-    hcPutheader (lit "Host") (.inr v)
+    pure (.inr v)
   else
     let e ← asciiOrIdna cfg cfg.host
     let e ← if cfg.host.contains 58 then stripIpv6Iface ([91] ++ e ++ [93]) else pure e
-    if cfg.port = cfg.defaultPort then hcPutheader (lit "Host") (.inr e)
-    else hcPutheader (lit "Host") (.inl (e ++ [58] ++ toDec cfg.port))
+    if cfg.port = cfg.defaultPort then pure (.inr e)
+    else pure (.inl (e ++ [58] ++ toDec cfg.port))
 
-/-- urllib3 `putrequest` + `http.client.putrequest`: the buffered lines -/
-def putrequest (cfg : Cfg) (meth url : Str) (skipHost skipAE : Bool) : Except Exc (List Bytes) := do
-  if hasNonToken meth then throw .valueError
-  if hcMethodBad meth then throw .valueError            -- _validate_method
-  let url := if url.isEmpty then lit "/" else url       -- url or '/'
-  if hcUrlBad url then throw .invalidURL                -- _validate_path
-  let rl ← encodeAscii (meth ++ [32] ++ url ++ [32] ++ lit "HTTP/1.1")     -- _encode_request
-  let hostL ← if skipHost then pure [] else (hostLine cfg url).map fun l => [l]
-  let aeL ← if skipAE then pure [] else (hcPutheader (lit "Accept-Encoding") (.inl (lit "identity"))).map fun l => [l]
-  pure ([rl] ++ hostL ++ aeL)
+def hostLine (cfg : Cfg) (url : Str) : Except Exc Hdr :=
+  match hostValue cfg url with
+  | .error e => .error e
+  | .ok v => hcPutheader (lit "Host") v
 
-def putCallerHeaders : List (Str × Str) → Except Exc (List Bytes)
+def httpVsn : Bytes := [72, 84, 84, 80, 47, 49, 46, 49]      -- "HTTP/1.1"
+
+/-- `url or '/'` -/
+def urlOrSlash (url : Str) : Str := if url.isEmpty then [47] else url
+
+/-- urllib3 `putrequest` + `http.client.putrequest`: the buffered request line and header lines -/
+def putrequest (cfg : Cfg) (meth url : Str) (skipHost skipAE : Bool) : Except Exc (Bytes × List Hdr) :=
+  if hasNonToken meth then .error .valueError           -- urllib3's token check
+  else if hcMethodBad meth then .error .valueError      -- _validate_method
+  else if hcUrlBad (urlOrSlash url) then .error .invalidURL      -- _validate_path(url or '/')
+  else
+    match encodeAscii (meth ++ [32] ++ urlOrSlash url ++ [32] ++ httpVsn) with      -- _encode_request
+    | .error e => .error e
+    | .ok rl =>
+      match (if skipHost then .ok [] else (hostLine cfg (urlOrSlash url)).map fun l => [l]) with
+      | .error e => .error e
+      | .ok hostL =>
+        match (if skipAE then .ok []
+               else (hcPutheader (lit "Accept-Encoding") (.inl (lit "identity"))).map fun l => [l]) with
+        | .error e => .error e
+        | .ok aeL => .ok (rl, hostL ++ aeL)
+
+def putCallerHeaders : List (Str × Str) → Except Exc (List Hdr)
   | [] => .ok []
-  | (k, v) :: t => do
-    let l ← putheader k v
-    let r ← putCallerHeaders t
-    pure (match l with | some x => x :: r | none => r)
+  | (k, v) :: t =>
+    match putheader k v with
+    | .error e => .error e
+    | .ok l =>
+      match putCallerHeaders t with
+      | .error e => .error e
+      | .ok r => .ok (l ++ r)
 
 /-- `len(chunk)` -/
 def Chunk.len : Chunk → Nat
@@ -272,81 +303,108 @@ structure Sent where
   err : Option Exc
 deriving Repr, DecidableEq
 
+/-- the bytes of a chunk as `send` gets them (`str` chunks are encoded first) -/
+def Chunk.data : Chunk → Except Exc Bytes
+  | .str s => encodeUtf8 s
+  | .bytes b => .ok b
+  | .buf b _ => .ok b
+
+/-- the `len(chunk)` that goes into the chunk-size line (after the `str` → `bytes` conversion) -/
+def Chunk.sizeLine (c : Chunk) (d : Bytes) : Nat :=
+  match c with
+  | .str _ => d.length
+  | _ => c.len
+
 /-- the body loop of `request` -/
 def sendChunks (chunked : Bool) : List Chunk → Sent
   | [] => ⟨[], none⟩
   | c :: t =>
     if c.len = 0 then sendChunks chunked t               -- `if not chunk: continue`
     else
-      let data : Except Exc Bytes := match c with
-        | .str s => encodeUtf8 s
-        | .bytes b => .ok b
-        | .buf b _ => .ok b
-      match data with
+      match c.data with
       | .error e => ⟨[], some e⟩
       | .ok d =>
-        let n := match c with | .str _ => d.length | _ => c.len
         let r := sendChunks chunked t
-        ⟨(if chunked then toHex n ++ crlf ++ d ++ crlf else d) ++ r.written, r.err⟩
+        ⟨(if chunked then toHex (c.sizeLine d) ++ crlf ++ d ++ crlf else d) ++ r.written, r.err⟩
 
 structure Framing where
   chunked : Bool
-  lines : List Bytes
-deriving Repr
+  lines : List Hdr
+deriving Repr, DecidableEq
 
 /-- framing decision of `request` -/
 def framing (keys : List Str) (chunkedArg : Bool) (chunks : Option (List Chunk)) (cl : Option Nat) :
     Except Exc Framing :=
-  let put (k v : Str) : Except Exc (List Bytes) := (putheader k v).map fun o => o.toList
   if chunkedArg then
     if !keys.contains (lit "transfer-encoding") then
-      (put (lit "Transfer-Encoding") (lit "chunked")).map (⟨true, ·⟩)
+      (putheader (lit "Transfer-Encoding") (lit "chunked")).map (⟨true, ·⟩)
     else .ok ⟨true, []⟩
   else if keys.contains (lit "content-length") then .ok ⟨false, []⟩
   else if keys.contains (lit "transfer-encoding") then .ok ⟨true, []⟩
   else match cl with
     | none =>
-      if chunks.isSome then (put (lit "Transfer-Encoding") (lit "chunked")).map (⟨true, ·⟩)
+      if chunks.isSome then (putheader (lit "Transfer-Encoding") (lit "chunked")).map (⟨true, ·⟩)
       else .ok ⟨false, []⟩
-    | some n => (put (lit "Content-Length") (toDec n)).map (⟨false, ·⟩)
+    | some n => (putheader (lit "Content-Length") (toDec n)).map (⟨false, ·⟩)
 
-/-- everything `request` does before `endheaders()` sends: buffered head lines, framing flag,
-chunks, body-after -/
+/-- everything `request` does before `endheaders()` sends: buffered request line and header lines,
+framing flag, chunks, body-after -/
 structure Prepared where
-  lines : List Bytes
+  reqLine : Bytes
+  hdrs : List Hdr
   chunked : Bool
   chunks : Option (List Chunk)
   after : Body
 
+def Prepared.lines (p : Prepared) : List Bytes := p.reqLine :: p.hdrs.map hdrLine
+
+def headerKeys (headers : List (Str × Str)) : List Str := headers.map fun kv => lower kv.1
+
 def prepare (cfg : Cfg) (meth url : Str) (headers : List (Str × Str)) (body : Body) (chunked : Bool) :
-    Except Exc Prepared := do
-  if hcUrlBad cfg.host then throw .invalidURL            -- HTTPConnection.__init__ → _validate_host
-  let keys := headers.map fun kv => lower kv.1
-  let l0 ← putrequest cfg meth url (keys.contains (lit "host")) (keys.contains (lit "accept-encoding"))
-  let cc ← bodyToChunks body meth cfg.blocksize
-  let fr ← framing keys chunked cc.chunks cc.contentLength
-  let ua ← if keys.contains (lit "user-agent") then pure []
-           else (putheader (lit "User-Agent") Gen.defaultUserAgent).map fun o => o.toList
-  let hs ← putCallerHeaders headers
-  pure ⟨l0 ++ fr.lines ++ ua ++ hs, fr.chunked, cc.chunks, cc.after⟩
+    Except Exc Prepared :=
+  if hcUrlBad cfg.host then .error .invalidURL           -- HTTPConnection.__init__ → _validate_host
+  else
+    match putrequest cfg meth url ((headerKeys headers).contains (lit "host"))
+            ((headerKeys headers).contains (lit "accept-encoding")) with
+    | .error e => .error e
+    | .ok l0 =>
+      match bodyToChunks body meth cfg.blocksize with
+      | .error e => .error e
+      | .ok cc =>
+        match framing (headerKeys headers) chunked cc.chunks cc.contentLength with
+        | .error e => .error e
+        | .ok fr =>
+          match (if (headerKeys headers).contains (lit "user-agent") then .ok []
+                 else putheader (lit "User-Agent") Gen.defaultUserAgent) with
+          | .error e => .error e
+          | .ok ua =>
+            match putCallerHeaders headers with
+            | .error e => .error e
+            | .ok hs => .ok ⟨l0.1, l0.2 ++ fr.lines ++ ua ++ hs, fr.chunked, cc.chunks, cc.after⟩
 
 /-- `b"\r\n".join(buffer + [b"", b""])` -/
 def headBytes (lines : List Bytes) : Bytes := joinWith crlf (lines ++ [[], []])
 
+/-- `b"0\r\n\r\n"` -/
+def lastChunk : Bytes := [48, 13, 10, 13, 10]
+
 structure Result where
   sent : Sent
   after : Body
+
+/-- what `request` writes after the head -/
+def bodyPhase (p : Prepared) : Sent :=
+  let b := match p.chunks with | some cs => sendChunks p.chunked cs | none => ⟨[], none⟩
+  match b.err with
+  | some e => ⟨b.written, some e⟩
+  | none => ⟨b.written ++ (if p.chunked then lastChunk else []), none⟩
 
 /-- `HTTPConnection(host, port, blocksize=…).request(method, url, body, headers, chunked=…)` -/
 def request (cfg : Cfg) (meth url : Str) (headers : List (Str × Str)) (body : Body) (chunked : Bool) :
     Result :=
   match prepare cfg meth url headers body chunked with
   | .error e => ⟨⟨[], some e⟩, body⟩
-  | .ok p =>
-    let b := match p.chunks with | some cs => sendChunks p.chunked cs | none => ⟨[], none⟩
-    match b.err with
-    | some e => ⟨⟨headBytes p.lines ++ b.written, some e⟩, p.after⟩
-    | none => ⟨⟨headBytes p.lines ++ b.written ++ (if p.chunked then lit "0\r\n\r\n" else []), none⟩, p.after⟩
+  | .ok p => ⟨⟨headBytes p.lines ++ (bodyPhase p).written, (bodyPhase p).err⟩, p.after⟩
 
 def wireWritten (cfg : Cfg) (meth url : Str) (headers : List (Str × Str)) (body : Body) (chunked : Bool) : Bytes :=
   (request cfg meth url headers body chunked).sent.written
@@ -546,22 +604,28 @@ def h2IllegalValue (b : Bytes) : Bool :=
 def lowerBytes (b : Bytes) : Bytes := b.map lowerC
 
 /-- `HTTP2Connection.putheader(header, value)`: the pair appended to `_headers` -/
-def h2Putheader (name value : Str) : Except Exc (Bytes × Bytes) := do
-  let n ← encodeUtf8 name
-  let n := lowerBytes n
-  if !h2LegalName n then throw .valueError
-  let v ← encodeUtf8 value
-  if h2IllegalValue v then throw .valueError
-  pure (n, v)
+def h2Putheader (name value : Str) : Except Exc (Bytes × Bytes) :=
+  match encodeUtf8 name with                             -- header.encode()
+  | .error e => .error e
+  | .ok n =>
+    if !h2LegalName (lowerBytes n) then .error .valueError
+    else
+      match encodeUtf8 value with
+      | .error e => .error e
+      | .ok v => if h2IllegalValue v then .error .valueError else .ok (lowerBytes n, v)
 
 /-! ## Independent request parser and body de-framer (specification side) -/
 
 /-- if the input starts with a line terminator (CRLF, CR or LF): what follows it -/
 def afterTerm : Bytes → Option Bytes
-  | 13 :: 10 :: t => some t
-  | 13 :: t => some t
-  | 10 :: t => some t
-  | _ => none
+  | [] => none
+  | x :: t =>
+    if x = 13 then
+      match t with
+      | y :: u => if y = 10 then some u else some t
+      | [] => some t
+    else if x = 10 then some t
+    else none
 
 /-- one logical line: up to the first line terminator that is not followed by SP / HTAB (a
 terminator followed by SP / HTAB is a continuation and stays in the line) -/
@@ -604,7 +668,7 @@ def parseHeaderLine (l : Bytes) : Option (Bytes × Bytes) :=
 
 def parseRequestLine (l : Bytes) : Option (Bytes × Bytes) :=
   match splitOn1 32 l with
-  | [m, t, v] => if v == lit "HTTP/1.1" && !m.isEmpty && !t.isEmpty && m.all isTokenC then some (m, t) else none
+  | [m, t, v] => if v == httpVsn && !m.isEmpty && !t.isEmpty && m.all isTokenC then some (m, t) else none
   | _ => none
 
 def strictParse (w : Bytes) : Option Request :=
